@@ -512,7 +512,9 @@ impl ArchiveFooter {
         let len = u64::from(src.read_u32::<LittleEndian>()?);
 
         // Prepare for deserialization
-        src.seek(SeekFrom::Start(pos - len))?;
+        // `len` is untrusted: it cannot exceed the bytes before it
+        let files_info_pos = pos.checked_sub(len).ok_or(Error::DeserializationError)?;
+        src.seek(SeekFrom::Start(files_info_pos))?;
 
         // Read files_info
         let files_info: HashMap<String, FileInfo> = match bincode::options()
